@@ -212,9 +212,16 @@ def run_check(pid, fn, tier):
         fn(rep)
         rc = rep.finish()
     except AnalysisError as e:
-        print("ANALYSIS-ERROR property=%s %s" % (pid, e))
-        _write_error_evidence(rep, str(e))
-        rc = 2
+        if rep.violations:
+            # rules decided before the extractor gave up already found named constructs that break them: those are
+            # definite; the remaining rules have no verdict
+            rep.note("analysis incomplete after the violations below were found: %s" % e)
+            print("ANALYSIS-INCOMPLETE property=%s %s" % (pid, e))
+            rc = rep.finish()
+        else:
+            print("ANALYSIS-ERROR property=%s %s" % (pid, e))
+            _write_error_evidence(rep, str(e))
+            rc = 2
     except Exception as e:  # checker bug: never report as a violation
         traceback.print_exc()
         print("ANALYSIS-ERROR property=%s internal checker error: %r" % (pid, e))
